@@ -132,7 +132,16 @@ var _ Storage = LeveldbDiskStorage{}
 
 func newDiskDb(path string, nuke bool) *leveldb.DB {
 	if nuke {
-		_ = os.RemoveAll(path)
+		// Move the directory out of the way (atomically) before deleting it: a process that dies in the middle of
+		// a recursive removal would leave a half-deleted database directory, which leveldb refuses to open - the
+		// server could then not be started on this root any more.
+		trash := path + ".table.deleting"
+		_ = os.RemoveAll(trash) // left over from an earlier interrupted removal
+		if err := os.Rename(path, trash); err == nil {
+			_ = os.RemoveAll(trash)
+		} else {
+			_ = os.RemoveAll(path)
+		}
 		verifPoint("disk.nuke.afterRemove", []byte(path))
 	}
 
